@@ -121,6 +121,8 @@ type Machine struct {
 	stepLimit   int64
 	depth       int
 	maxDepth    int
+	envCache    map[string]Value
+	inBase      bool
 	violations  []Violation
 	cfg         *JobCfg
 	stats       *Stats
